@@ -1078,10 +1078,17 @@ def c16_cli(ctx, res):
              "runs_off.asm": ".orig xFDFC\nadd r1 r1 #1\nadd r1 r1 #1\n",
              "jumps_low.asm": ".orig x4000\nld r2 t\njmp r2\nt .fill x3ff0\n",
              "to_ffff.asm": "ld r2 t\njmp r2\nt .fill xFFFF\n"}
+    # a program whose own output contains terminal control characters (ESC without a final `m`, BEL, CSI)
+    progs["prints_esc.asm"] = "lea r0 s\nputs\nld r0 e\nout\nhalt\ne .fill x1b\ns .stringz \"a\x1b[2Jb\x1b[1mc\x07\"\n"
     for n, t in progs.items():
         _write(os.path.join(d, n), t)
     endings = ["step", "continue", "// note", "step // note", "continue //", "//", "# note", "-- note", "; ", ";", ";;", "step;",
-               "si 3 ;", "\"", "'", "\\", " ", "\t", "\r", "quit //", "\x00", "\u00e9", "echo //", "/* c */", "/", "step /", "registers\r"]
+               "si 3 ;", "\"", "'", "\\", " ", "\t", "\r", "quit //", "\x00", "\u00e9", "echo //", "/* c */", "/", "step /", "registers\r",
+               "echo \x1b[2J", "echo \x1b", "echo \x1b[H\x1b[K", "echo a\x1b[1mb\x1b[0m", "echo \x9b2J"]
+    # byte strings that are not UTF-8 (only through standard input; how such a line is refused - an
+    # error, or the reader giving up - is not this property's business, that the session ends is)
+    raw_endings = [b"echo 5\xa3", b"break\xa0list", b"\x80", b"\xc0\x80", b"echo caf\xe9", b"\xff\xfe", b"step\n\xbf\n", b"echo \xed\xa0\x80",
+                   b"\xf8\x88\x80\x80\x80", b"echo ok\n\x93done\x94"]
     prefixes = ["", "step\n", "continue\n", "break add ^1\ncontinue\n", "assembly x0000\nassembly x2fff\nprint x0\n",
                 "break add ^2\nbreak add ^0\nbreak add ^1\nbreak add ^1\nbreak list\n", "assembly\nassembly xFFFF\ncontinue\nassembly\n"]
     jobs = []
@@ -1094,6 +1101,11 @@ def c16_cli(ctx, res):
                         continue
                     jobs.append((pn, pre + end + ("\n" if final_nl else ""), via))
 
+    for pn in ("halts.asm", "to_ffff.asm"):
+        for raw in raw_endings:
+            for final_nl in (False, True):
+                jobs.append((pn, raw + (b"\n" if final_nl else b""), "stdin-bytes"))
+
     def limit():
         resource.setrlimit(resource.RLIMIT_CPU, (10, 12))
 
@@ -1105,6 +1117,8 @@ def c16_cli(ctx, res):
         data = b""
         if via == "arg":
             args += ["--command", script.replace("\n", ";").replace("\x00", "")]
+        elif via == "stdin-bytes":
+            data = script
         else:
             data = script.encode()
         t0 = time.time()
@@ -1120,7 +1134,10 @@ def c16_cli(ctx, res):
         res.evaluations += 1
         res.cls("l2:session_through_real_reader:" + via)
         res.cls("l2:program:" + pn.split(".")[0])
-        if not script.endswith("\n"):
+        if via == "stdin-bytes":
+            res.cls("l2:script_not_utf8")
+            script = repr(script)
+        elif not script.endswith("\n"):
             res.cls("l2:script_without_final_newline")
         detail = {"program": progs[pn], "script": script, "delivery": via, "exit": rc,
                   "stdout_tail": out.decode("utf-8", "replace"), "stderr_tail": err.decode("utf-8", "replace")}
@@ -1130,12 +1147,16 @@ def c16_cli(ctx, res):
         elif rc is None:
             res.inconclusive["session exceeded the 120 s wall-clock watchdog without using its CPU budget"] = \
                 res.inconclusive.get("session exceeded the 120 s wall-clock watchdog without using its CPU budget", 0) + 1
+        elif via == "stdin-bytes" and rc == 101:
+            res.cls("l2:session_terminated")
+            res.cls("l2:not_utf8_ended_by_reader_giving_up")
         elif rc == 101 or (rc is not None and rc < 0):
             res.violate("C16/cli/crash", "`lace debug` crashed (exit %s)" % rc, detail)
         else:
             res.cls("l2:session_terminated")
     res.require(["l2:session_through_real_reader:stdin", "l2:session_through_real_reader:arg", "l2:script_without_final_newline",
-                 "l2:session_terminated", "l2:program:halts", "l2:program:runs_off", "l2:program:jumps_low", "l2:program:to_ffff"], "L2")
+                 "l2:session_terminated", "l2:program:halts", "l2:program:runs_off", "l2:program:jumps_low", "l2:program:to_ffff",
+                 "l2:program:prints_esc", "l2:script_not_utf8"], "L2")
 
 
 # ------------------------------------------------------------------ C17 (L2: what the user reads)
@@ -1271,6 +1292,33 @@ def c18_cli(ctx, res):
             res.violate("C18/cli/flag-on-not-honoured/" + sub, "`lace %s ... -f stack` does not assemble and execute a program using the extension (exit %s)" % (sub, on.rc), detail)
         if off.rc == 0 or off.crashed or b"stack" not in (off.err + off.out):
             res.violate("C18/cli/flag-off-not-rejected/" + sub, "`lace %s` without the flag: exit %s, diagnostic naming the feature expected" % (sub, off.rc), detail)
+    # opcode 0xD reached under the debugger without the flag: the VM stops with status 1 there too,
+    # whatever command was driving it and whatever the script says afterwards
+    for k, word in enumerate(("xD400", "xD000", "xDC01", "xD800")):
+        name = "dbgd%d.asm" % k
+        _write(os.path.join(d, name), "add r1 r1 #1\n.fill %s\nhalt\n" % word)
+        for script in ("continue;exit", "step;step;exit", "si 5;registers;exit", "continue"):
+            r = lace(ctx, ["debug", name, "--minimal", "--command", script], cwd=d, stdin=b"")
+            res.evaluations += 1
+            res.cls("l2:raw_0xD_under_debugger")
+            if r.rc != 1:
+                res.violate("C18/cli/runtime-gate", "opcode 0xD (%s) reached under `lace debug` (`%s`) without the flag: exit %s, the VM stops with 1" % (word, script, r.rc),
+                            {"run": r.brief(), "script": script})
+    # plain programs at the very top of user memory (no room for a stack): the flag still changes nothing
+    for k, orig in enumerate(("xFDF8", "xFDFA", "xFDFC", "xFD00")):
+        name = "top%d.asm" % k
+        _write(os.path.join(d, name), ".orig %s\nand r0 r0 #0\nadd r0 r0 #7\nputn\nhalt\n" % orig)
+        for sub, extra in (("run", ["--minimal"]), ("run", []), ("debug", ["--minimal", "--command", "continue"]), ("check", []), ("compile", ["top%d.lc3" % k])):
+            args = [sub, name] + extra
+            on = lace(ctx, args + ["-f", "stack"], cwd=d, stdin=b"")
+            off = lace(ctx, args, cwd=d, stdin=b"")
+            res.evaluations += 1
+            res.cls("l2:plain_program_at_top_of_user_memory")
+            if (on.rc, on.out, on.err) != (off.rc, off.out, off.err):
+                which = "exit status" if off.rc != on.rc else ("stdout" if off.out != on.out else "stderr")
+                res.violate("C18/cli/behaviour-depends-on-flag/" + which.replace(" ", "-"),
+                            "a program using none of the four mnemonics (at %s) gives a different %s under `lace %s` with `-f stack`" % (orig, which, sub),
+                            {"flag_off": off.brief(), "flag_on": on.brief()})
     # a plain program that prints its registers (REG) after moving R7, in both output modes
     regp = "jsr f\nreg\nhalt\nf add r1 r1 #3\nret\n"
     _write(os.path.join(d, "regs.asm"), regp)
@@ -1289,7 +1337,8 @@ def c18_cli(ctx, res):
     watch_history(ctx, res, cp, "C18", 60, stack=True)
     watch_history(ctx, res, cp, "C18", 61, ext_sources=True)
     res.require(["l2:ext_program", "l2:plain_program", "l2:raw_0xD", "l2:plain_program_run", "l2:plain_program_run_r7_changed",
-                 "watch_recheck", "watch_recheck_with_stack_flag", "l2:extension_program_under:debug", "l2:plain_program_prints_registers"], "L2")
+                 "watch_recheck", "watch_recheck_with_stack_flag", "l2:extension_program_under:debug", "l2:plain_program_prints_registers", "l2:raw_0xD_under_debugger",
+                 "l2:plain_program_at_top_of_user_memory"], "L2")
 
 
 # ------------------------------------------------------------------ C09 (L2 sample)
